@@ -1314,6 +1314,7 @@ type ModLoc struct {
 	mapp  *Term      // map reference: its contents
 	mtyp  *types.Map
 	allOf types.Type // all(T): the fields of every object of struct type T (wherever it lives), or every cell of leaf type T
+	path  []string   // all(T).f.g: only that field of every object of type T (typ is the type of the field)
 	text  string
 }
 
@@ -1354,6 +1355,46 @@ func (e *SpecEnv) evalLocs(x ast.Expr) []ModLoc {
 					specFail("old() not available")
 				}
 				return e.inState(e.old).evalLocs(call.Args[0])
+			}
+		}
+	}
+	if sel, ok := x.(*ast.SelectorExpr); ok {
+		// all(T).f.g: the field f.g of every object of type T
+		var path []string
+		var cur ast.Expr = sel
+		for {
+			s2, ok := cur.(*ast.SelectorExpr)
+			if !ok {
+				break
+			}
+			path = append([]string{s2.Sel.Name}, path...)
+			cur = s2.X
+		}
+		if call, ok := cur.(*ast.CallExpr); ok {
+			if id, ok := call.Fun.(*ast.Ident); ok && id.Name == "all" && len(call.Args) == 1 {
+				t := e.lookupType(call.Args[0])
+				if t == nil {
+					specFail("all(T): unknown type %s", exprString(call.Args[0]))
+				}
+				e.w().forceSorts(t)
+				ft := t
+				for _, nm := range path {
+					if _, isStruct := ft.Underlying().(*types.Struct); !isStruct {
+						specFail("%s: %s is not a struct", exprString(x), ft)
+					}
+					si := e.w().structInfo(ft)
+					found := false
+					for _, f := range append(append([]FieldInfo{}, si.Fields...), si.Ghosts...) {
+						if f.Name == nm {
+							ft, found = f.Type, true
+							break
+						}
+					}
+					if !found {
+						specFail("%s: no field %s", exprString(x), nm)
+					}
+				}
+				return []ModLoc{{allOf: t, path: path, typ: ft, text: exprString(x)}}
 			}
 		}
 	}
